@@ -218,6 +218,7 @@ impl Family for V3 {
         p.encode_len().map_err(|e| format!("{:?}", e))
     }
     fn decode(b: &[u8]) -> Result<Option<Self::Packet>, Self::Error> {
+        warm_thread(Fam::V3);
         v3::Packet::decode(b)
     }
     async fn decode_async<R: AsyncRead + Unpin>(r: &mut R) -> Result<Self::Packet, Self::Error> {
@@ -393,6 +394,7 @@ impl Family for V5 {
         p.encode_len().map_err(|e| format!("{:?}", e))
     }
     fn decode(b: &[u8]) -> Result<Option<Self::Packet>, Self::Error> {
+        warm_thread(Fam::V5);
         v5::Packet::decode(b)
     }
     async fn decode_async<R: AsyncRead + Unpin>(r: &mut R) -> Result<Self::Packet, Self::Error> {
@@ -648,6 +650,7 @@ impl Family for V5 {
 
 /// async decoder on a plain slice: result and bytes consumed
 pub fn dec_async<F: Family>(b: &[u8]) -> (Result<F::Packet, F::Error>, usize) {
+    warm_thread(F::FAM);
     let mut r: &[u8] = b;
     let res = futures_lite::future::block_on(F::decode_async(&mut r));
     (res, b.len() - r.len())
@@ -736,6 +739,7 @@ pub fn dec_poll_styled<F: Family>(
     // bit 0: ReadBuf fill style; bit 1: when the future is re-created at a Pending, continue from a
     // clone of the caller-held state (the original is dropped); bit 2: the transport signals the end of
     // the stream with Err(UnexpectedEof) instead of an empty read; bits 4..7: payload shape of injected errors
+    warm_thread(F::FAM);
     let clone_state = fill_style & 2 != 0;
     let eof_as_error = fill_style & 4 != 0;
     let fault_shape = fill_style >> 4;
@@ -904,6 +908,42 @@ pub fn dec_poll_from_built_body<F: Family>(data: &[u8], prefill: usize) -> Optio
     let mut rd = ScriptedReader::new(&data[hl + pre..], &[]);
     let (res, _) = sio::drive(GenericPollPacket::new(&mut state, &mut rd), 16);
     Some((res.map(|(total, buf, pkt)| PollOk { total, body: body_bytes(buf), pkt }), hl + pre + rd.pos))
+}
+
+thread_local! {
+    static WARMED: std::cell::Cell<bool> = const { std::cell::Cell::new(false) };
+}
+
+/// A bridge or a broker serves both protocol families on one thread. On the worker threads with an odd shard number the
+/// first decode of a family is therefore preceded by a decode of a small packet of the *other* family through every
+/// front-end: whatever per-thread state the two families might share is then already filled by the other one.
+pub fn warm_thread(fam: Fam) {
+    if WARMED.with(|w| w.replace(true)) {
+        return;
+    }
+    let slot = crate::run::SLOT.with(|s| s.get());
+    if slot == usize::MAX || slot % 2 == 0 {
+        return;
+    }
+    use futures_lite::future::block_on;
+    let frames: [&[u8]; 3] = [&[0xC0, 0x00], &[0x40, 0x02, 0x00, 0x01], &[0x30, 0x04, 0x00, 0x01, b'a', 0x00]];
+    for f in frames {
+        if fam == Fam::V3 {
+            let _ = v5::Packet::decode(f);
+            let mut r: &[u8] = f;
+            let _ = block_on(v5::Packet::decode_async(&mut r));
+            let mut st: GenericPollPacketState<v5::Header> = Default::default();
+            let mut r: &[u8] = f;
+            let _ = block_on(GenericPollPacket::new(&mut st, &mut r));
+        } else {
+            let _ = v3::Packet::decode(f);
+            let mut r: &[u8] = f;
+            let _ = block_on(v3::Packet::decode_async(&mut r));
+            let mut st: GenericPollPacketState<v3::Header> = Default::default();
+            let mut r: &[u8] = f;
+            let _ = block_on(GenericPollPacket::new(&mut st, &mut r));
+        }
+    }
 }
 
 /// one-shot poll decode of a byte string (everything ready in one read)
